@@ -12,10 +12,10 @@ CONSTANTS
   SurfRefWindow = 180
   NoGuard = FALSE
   RxRef = 600
-  DTs = {0, 1, 9, 17, 180, 472}
+  DTs = {1, 17, 472}
   Dirs <- Dirs3
   Aircraft = {1, 2}
-  StartSet = {64, 500}
+  StartSet = {500}
   MaxReports = 3
   SwapMax = 10
   SharedKey = FALSE
